@@ -451,7 +451,23 @@ SolveAgain ==
   /\ st' = [S0 EXCEPT !.hint = st.hint, !.cD = st.cD, !.softLeft = Cases[ci].ps[sk + 1].soft]
   /\ UNCHANGED ci
 
-Next == \/ (Install \/ PropTop \/ Decide \/ PropLearn \/ Check \/ NextSoft) /\ UNCHANGED <<ci, sk>>
+(***************************************************************************)
+(* Cancellation (C12, C13).  should_cancel_with_value is polled at the     *)
+(* start of every propagation round and before every uncached provider     *)
+(* request, so a solve can end with Cancelled from any of the steps above. *)
+(* The solver state is thrown away at the next solve; what the provider    *)
+(* had returned stays in the cache: the dependency records known at the    *)
+(* last completed encode, possibly more (requests that completed before    *)
+(* the poll that saw the cancellation) - modelled by the two extremes.     *)
+(* Off unless a configuration overrides CancelOn.                          *)
+(***************************************************************************)
+CancelOn == FALSE
+Cancel ==
+  /\ CancelOn /\ st.pc # "done"
+  /\ \E extra \in {{}, Listed(U)} :
+        st' = [st EXCEPT !.pc = "done", !.outcome = [kind |-> "cancelled"], !.cD = st.cD \cup extra]
+
+Next == \/ (Install \/ PropTop \/ Decide \/ PropLearn \/ Check \/ NextSoft \/ Cancel) /\ UNCHANGED <<ci, sk>>
         \/ SolveAgain
 Spec == Init /\ [][Next]_vars /\ WF_vars(Next)
 
